@@ -20,11 +20,11 @@ import (
 //	R-AST-1   the syntax tree is read-only for evaluation
 
 func init() {
-	Register(&Rule{ID: "R-POOL-1", Props: []string{"C14"}, Floor: 6,
+	Register(&Rule{ID: "R-POOL-1", Props: []string{"C14", "C06"}, Floor: 6,
 		Doc:      "every return of the exported func(Primary,…) Primary conversions of lib/value is a pool-constructor result or a non-pooled singleton, never the parameter",
 		Controls: []string{"CtlConvReturnsParam"},
 		Run:      rulePool1})
-	Register(&Rule{ID: "R-POOL-2", Props: []string{"C14", "C08", "C16", "C07", "C20", "C05"}, Floor: 100,
+	Register(&Rule{ID: "R-POOL-2", Props: []string{"C14", "C08", "C16", "C07", "C20", "C05", "C06"}, Floor: 100,
 		Doc:      "each value.Discard argument originates from fresh-returning calls of the same function, has not escaped on a path that reaches the Discard, and is not used after it",
 		Controls: []string{"CtlDiscardParam", "CtlDiscardEscaped", "CtlUseAfterDiscard", "CtlDeferredDoubleDiscard"},
 		Run:      rulePool2})
